@@ -716,17 +716,22 @@ func (s *exprColumnNameRewriteVisitor) Enter(n ast.Node) (node ast.Node, skipChi
 }
 
 // rewriteColumnNamesInExpr decorates the column names below an expression that takes no part in routing.
-// The visitor can report a column it cannot look up only by a panic, which is returned as an error.
 func rewriteColumnNamesInExpr(p *TableAliasStmtInfo, expr ast.ExprNode) (ret ast.ExprNode, err error) {
 	if _, isValue := expr.(*driver.ValueExpr); isValue {
 		return expr, nil
 	}
+	return acceptColumnNameRewriter(expr, &exprColumnNameRewriteVisitor{NewColumnNameRewriteVisitor(p)})
+}
+
+// acceptColumnNameRewriter runs a column name visitor over an expression and returns the rewritten expression.
+// The visitor can report a column it cannot look up only by a panic, which is returned as an error.
+func acceptColumnNameRewriter(expr ast.ExprNode, v ast.Visitor) (ret ast.ExprNode, err error) {
 	defer func() {
 		if e := recover(); e != nil {
 			err = fmt.Errorf("%v", e)
 		}
 	}()
-	node, _ := expr.Accept(&exprColumnNameRewriteVisitor{NewColumnNameRewriteVisitor(p)})
+	node, _ := expr.Accept(v)
 	return node.(ast.ExprNode), nil
 }
 
@@ -813,10 +818,13 @@ func handleComparisonExpr(p *TableAliasStmtInfo, comp ast.ExprNode) (bool, []int
 		expr.Expr = newExpr
 		return has, routeResult, expr, err
 	default:
-		// 其他情况只替换表名 (但是不处理根节点是ColumnNameExpr的情况, 理论上也不会出现这种情况)
-		columnNameRewriter := NewColumnNameRewriteVisitor(p)
-		expr.Accept(columnNameRewriter)
-		return false, p.GetRouteResult().GetShardIndexes(), comp, nil
+		// 其他情况只替换表名. The root may itself be a column (WHERE flag, a = 1 AND flag): the node the
+		// visitor returns takes its place. A column the visitor cannot look up is an error.
+		newExpr, err := acceptColumnNameRewriter(comp, NewColumnNameRewriteVisitor(p))
+		if err != nil {
+			return false, nil, nil, fmt.Errorf("rewrite column names error: %v", err)
+		}
+		return false, p.GetRouteResult().GetShardIndexes(), newExpr, nil
 	}
 }
 
